@@ -498,19 +498,19 @@ def outcome_of(got, exp, selected_expected=None):
 
 
 def pattern_features(p):
+    """coarse shape of a pattern: one / several wildcard groups, escapes, characters that are special in other pattern languages"""
     toks = parse_pattern(p) or []
-    f = []
-    if any(t[0] == 'any1' for t in toks):
-        f.append('q')
-    if any(t[0] == 'run' for t in toks):
-        f.append('star')
+    groups, prev = 0, False
+    for t in toks:
+        w = t[0] != 'lit'
+        groups += w and not prev
+        prev = w
+    f = ['one_wildcard_group' if groups <= 1 else 'several_wildcard_groups']
     if '~' in p:
-        f.append('esc')
-    if any(t[0] == 'lit' and t[1] == '.' for t in toks):
-        f.append('dot')
-    if any(t[0] == 'lit' and t[1] in '[]' for t in toks):
-        f.append('bracket')
-    return '+'.join(f) or 'plain'
+        f.append('escape')
+    if any(t[0] == 'lit' and t[1] in '.[]' for t in toks):
+        f.append('dot_or_bracket')
+    return '+'.join(f)
 
 
 def single_cell_key(spec, grid, got, exp):
@@ -618,10 +618,11 @@ def _values_whole(batch, items, d, tag=[0], singles=True):
         return {it['id']: (p, None) for it in items}
     if len(items) <= 1:
         return {it['id']: (None, p.error) for it in items}
+    shapes = {}
     if singles:
-        shapes = {}
         for it in items:
             shapes.setdefault(_shape_of(batch, it), []).append(it)
+    if singles and len(shapes) * 4 <= len(items):
         res, rest = {}, []
         for shape, group in shapes.items():
             r = _values_whole(batch, group[:1], d, singles=False)
@@ -843,10 +844,10 @@ PROBE_FUNCS = ['SUMIF', 'SUMIFS', 'COUNTIFS', 'COUNTIFS#2', 'AVERAGEIFS']
 def _matrix_batches(crits, values, variants, per_batch=420):
     sheet = _matrix_sheet(values)
     items = []
-    for crit in crits:
+    for n, crit in enumerate(crits):
         for row in range(1, len(values) + 1):
             for k, (variant, spec) in enumerate(_probe_specs(crit, row)):
-                if k in variants:
+                if k in (variants(n, crit) if callable(variants) else variants):
                     items.append({'spec': spec, 'keymode': 'single', 'variant': variant})
     rows = max(len(values), 30)
     return [{'sheets': [sheet], 'items': _place(ch, 0, 7, rows), 'mode': 'whole'} for ch in _chunks(items, per_batch)]
@@ -891,16 +892,21 @@ def operator_cell_criteria():
 
 def check_criteria(name, crits, tier, what):
     t0 = time.time()
-    variants = (0, 1, 2, 3, 4)
+    if tier == 'thorough':
+        variants = (0, 1, 2, 3, 4)
+    else:                                          # quick: all five places for every third criterion, else the two translator paths
+        variants = lambda n, crit: (0, 1, 2, 3, 4) if n % 3 == 0 else (0, 1) if n % 3 == 1 else (2, 4)
     batches = _matrix_batches(crits, MATRIX_VALUES, variants)
     return _collect(
         name,
         f'{len(crits)} criteria ({what}) x {len(MATRIX_VALUES)} cell values (ints, floats, 0, negatives, TRUE/FALSE, texts in both '
-        f'cases, Cyrillic, > 50 characters, numeric and date-like texts, dates / date-times up to 2051, blank) x 5 places '
+        f'cases, Cyrillic, > 50 characters, numeric and date-like texts, dates / date-times up to 2051, blank) x '
+        f'{"all 5 places" if tier == "thorough" else "5 places for every third criterion, 2 of the 5 for the others"} '
         f'(SUMIF, SUMIFS, COUNTIFS first and second pair, AVERAGEIFS), each on a one-cell range with a numeric target cell',
         'one evaluation = one formula value compared with the fold of every admissible selection of the single cell; '
         'combinations the statement does not decide admit both outcomes but never an exception; a criterion whose operand '
-        'cell is blank has no clause and is skipped', True, batches, t0, all_funcs=PROBE_FUNCS)
+        'cell is blank has no clause and is skipped', tier == 'thorough', batches, t0,
+        all_funcs=PROBE_FUNCS if tier == 'thorough' else None)
 
 
 # ------------------------------------------------------------------ check 3: wildcard patterns
@@ -931,7 +937,7 @@ def check_wildcards(tier, seed):
     rng = random.Random(seed * 7919 + 12)
     crits = wildcard_criteria(tier, rng)
     values = WILD_TEXTS + ['hello world', 'Hello World!', 'hallo world']
-    variants = (2,) if tier == 'quick' else (1, 2)
+    variants = (2,) if tier == 'quick' else (lambda n, crit: (1, 2) if len(crit['val']) <= 3 else (2,))
     batches = _matrix_batches(crits, values, variants)
     # a few patterns in every place a criterion can stand
     batches += _matrix_batches([lit('wild', 'pat', p) for p in ['a*', '?', '*a', 'a~*', '~?', 'a?', '*', '?*', 'a.', '*~~']],
@@ -940,7 +946,7 @@ def check_wildcards(tier, seed):
         'C12.monitor.criteria_wildcard',
         f'every pattern of 1..3 symbols over {{a B ? * ~ . [}} ({"all" if tier == "thorough" else "260 sampled"} of length 4) plus 15 '
         f'longer ones = {len(crits)} criteria x {len(values)} cells (texts of length 1..5 containing the pattern symbols themselves, '
-        f'a number, a blank) in COUNTIFS{"" if tier == "quick" else " and SUMIFS"}; 10 patterns x 9 cells in all 5 places',
+        f'a number, a blank) in COUNTIFS{"" if tier == "quick" else " (and SUMIFS for patterns of up to 3 symbols)"}; 10 patterns x 9 cells in all 5 places',
         'one evaluation = one one-cell formula; the reference matcher is a whole-text dynamic-programming matcher (? one character, '
         '* any run, ~? ~* ~~ literal); patterns with an undefined escape (~ before another character or at the end) are skipped; '
         'upper/lower case in patterns and patterns against numbers / blanks admit both outcomes', tier == 'thorough', batches, t0,
@@ -953,7 +959,7 @@ COL_A = [5, 7, 3, 0, -3, 2.5, 5, BLANK, 5.0, 1000]
 COL_B = ['x', 'X', 'y', 'abc', 'x', BLANK, 'ABC', 'ab', 'Y', 'x']
 COL_C = [5, 'x', True, BLANK, DT(2021, 6, 25), '5', 0, False, 2.5, 'X']
 COL_D = [DT(2021, 6, 25), DT(2021, 6, 25, 12), DT(1999, 12, 31), DT(2051, 1, 1), DT(2021, 6, 25), DT(2024, 2, 29),
-         DT(2000, 1, 1), DT(2021, 6, 24), BLANK, DT(2021, 6, 26)]
+         DT(2000, 1, 1), DT(2021, 6, 24), DT(1900, 1, 1), DT(2021, 6, 26)]
 COL_F = [1, 2, 4, 8, 16, 32.5, 64, 128, -256, 0.25]
 COL_G = [3, 9, 27, 81, 243, 729, 2187, 0, 6561.5, -19683]
 COL_H = [BLANK, 3, 'txt', 9, True, 27, 81, 0, DT(2020, 1, 1), 729]
@@ -999,13 +1005,30 @@ def _crit_tag(crit):
 COLNAME = {0: 'numbers', 1: 'texts', 2: 'mixed', 3: 'dates'}
 
 
+def _quoted(crit):
+    return crit['src'] == 'lit' and not (crit['form'] == 'plain_lit' and not isinstance(crit['val'], str)) or \
+        (crit['src'] != 'lit' and not crit['form'].startswith('plain'))
+
+
+def wild_beside_literal(combo):
+    """a wildcard criterion in a formula that contains another quoted literal (static feature of the input)"""
+    return any(c['op'] == 'pat' for _, c in combo) and sum(1 for _, c in combo if _quoted(c)) > 1
+
+
+def fold_key(func, combo, tcol):
+    if wild_beside_literal(combo):
+        return 'C12.fold.wildcard_beside_another_string_literal'
+    if func == 'AVERAGEIFS' and tcol == 7:
+        return 'C12.fold.AVERAGEIFS.non_number_in_unselected_target'
+    tags = sorted({f"{_crit_tag(c)}@{COLNAME[off]}" for off, c in combo})
+    return f"C12.fold.{func}.{'+'.join(tags)}"
+
+
 def _fold_item(func, combo, tcol, r0, r1, col0=1, s=None, home=0, sep=',', sp=False, absolute=False):
     pairs = [[mkref(col0 + off, r0, col0 + off, r1, s, absolute), crit] for off, crit in combo]
     target = None if tcol is None else mkref(col0 + tcol, r0, col0 + tcol, r1, s, absolute)
     spec = {'func': func, 'target': target, 'pairs': pairs, 'home': home, 'sep': sep, 'sp': sp}
-    tags = sorted({f"{_crit_tag(c)}@{COLNAME[off]}" for off, c in combo})
-    tname = {None: 'self', 5: 'numeric', 6: 'numeric', 7: 'mixed'}[tcol]
-    return {'spec': spec, 'key': f"C12.fold.{func}.{'+'.join(tags)}.target_{tname}", 'ctx': 'planted columns A-D, targets F-H'}
+    return {'spec': spec, 'key': fold_key(func, combo, tcol), 'ctx': 'planted columns A-D, targets F-H'}
 
 
 def check_select_fold(tier, seed):
@@ -1050,8 +1073,12 @@ def check_select_fold(tier, seed):
                     if func in ('SUMIFS', 'COUNTIFS'):
                         spec = dict(spec, pairs=[[mkref(9, r0, 10, r1), crit], [mkref(6, r0, 7, r1), lit('op_lit', '<', 100, '100')]])
                         items.append({'spec': spec, 'key': f"C12.fold.{func}.two_dimensional.{_crit_tag(crit)}", 'ctx': 'I:J and F:G against F:G'})
+    # a wildcard next to another quoted literal does not survive the lexer (one root cause, reported once): keep 12 of them
+    wild = [it for it in items if it['key'] == 'C12.fold.wildcard_beside_another_string_literal'][:12]
+    items = [it for it in items if it['key'] != 'C12.fold.wildcard_beside_another_string_literal']
     sheet = _fold_sheet()
-    batches = [{'sheets': [sheet], 'items': _place(ch, 0, FCOL, 30), 'mode': 'whole'} for ch in _chunks(items, 400)]
+    batches = [{'sheets': [sheet], 'items': _place(ch, 0, FCOL, 30), 'mode': 'whole'} for ch in _chunks(items, 400) + [wild]]
+    items = items + wild
     return _collect(
         'C12.monitor.select_fold',
         f'4 planted criteria columns of {FOLD_ROWS} rows (numbers with duplicates / 0 / negative / blank, texts in both cases with '
@@ -1211,7 +1238,7 @@ def check_contexts(tier, seed):
         for off, crit in combos:
             for func in FUNCS:
                 it = _fold_item(func, [(off, crit)], None if func == 'COUNTIFS' else 5, row0, row0 + FOLD_ROWS - 1, col0=col0, s=s, home=home)
-                it['key'] = f"C12.context.{tag}.{func}.{_crit_tag(crit)}"
+                it['key'] = f"C12.context.{tag}.{func}"
                 it['ctx'] = tag
                 out.append(it)
         return out
@@ -1235,9 +1262,10 @@ def check_contexts(tier, seed):
     items = []
     for s in (1, 2):
         combos = [(off, dict(crit, ref=[s, crit['ref'][1], crit['ref'][2]]) if crit['src'] != 'lit' else crit) for off, crit in some]
-        items += items_for(combos, 0, s=s, tag='qualified_ranges_and_criterion_cell')
+        q = 'quoted_title' if s == 2 else 'plain_title'
+        items += items_for(combos, 0, s=s, tag=f'ranges_and_criterion_cell_qualified_with_{q}')
         # range on the other sheet, criterion cell unqualified (own sheet)
-        items += items_for([c for c in some if c[1]['src'] != 'lit'], 0, s=s, tag='qualified_ranges_unqualified_criterion_cell')
+        items += items_for([c for c in some if c[1]['src'] != 'lit'], 0, s=s, tag=f'ranges_qualified_with_{q}_criterion_cell_unqualified')
     batches.append({'sheets': sheets, 'items': _place(items, 0, FCOL, 40), 'mode': 'whole'})
     # (c) the same formula text in several cells of one sheet, neighbours differing only in the criterion
     items = []
